@@ -432,10 +432,11 @@ pub fn check() -> Check {
     Check::new(
         "C11",
         "exploration",
-        "proptest-generated multi-version tables dealt into 0..5 children (merging: arbitrary assignment, so children share keys at different timestamps, are empty or tombstone-only; concatenation: cut at generated positions, so one key's versions are split across adjacent children), bounds from {Unbounded, Included, Excluded} over universe keys and their byte neighbours (empty and inverted intervals occur), read timestamps incl. 0 and u64::MAX, a lazily instantiated real SstCursor, and the Bounds(Pruning(Merging(Concat(Lazy…), Block…))) stack the store builds; each driven by a program of <= 40 cursor calls with forced next/prev reversals and compared call by call with a vector reference built from the definition. Non-trivial: >= 2 non-empty children, >= 1 tombstone and >= 1 direction reversal (pruning/bounds: output non-empty and strictly smaller than the input); distinct by structural hash.",
+        "proptest-generated multi-version tables dealt into 0..5 children (merging: arbitrary assignment, so children share keys at different timestamps, are empty or tombstone-only; concatenation: cut at generated positions, so one key's versions are split across adjacent children), bounds from {Unbounded, Included, Excluded} over universe keys and their byte neighbours (empty and inverted intervals occur), read timestamps incl. 0 and u64::MAX, a lazily instantiated real SstCursor, and the Bounds(Pruning(Merging(Concat(Lazy…), Block…))) stack the store builds; and Block::range_scan / Sst::range_scan (the table's own bounds-over-pruning cursor; tables with values up to 2500 bytes, so ssts of several blocks) compared with the reference restricted to the interval and pruned at the read timestamp; each driven by a program of <= 40 cursor calls with forced next/prev reversals and compared call by call with a vector reference built from the definition. In a third of the cases the program starts with next / prev on the freshly constructed cursor, which must show no entry and behave as positioned before the first entry. Non-trivial: >= 2 non-empty children, >= 1 tombstone and >= 1 direction reversal (pruning/bounds: output non-empty and strictly smaller than the input); distinct by structural hash.",
     )
     .assume("reference cursor semantics are those documented on sst::Cursor (sentinels before the first and after the last entry; stepping off an end stays there)")
     .assume("MergingCursor children never share a (key, timestamp) pair; ConcatenatingCursor children are ordered and overlap at most in one boundary key whose newer versions come first")
+    .assume("a freshly constructed cursor is positioned before the first entry: every combinator constructor positions itself with seek_to_first, and callers (sst/benches/block_cursor.rs, the scan cursors lsmtk hands out) step a fresh cursor with next() without a seek")
     .pbt(Combinators("merging"))
     .pbt(Combinators("concat"))
     .pbt(Combinators("pruning"))
